@@ -1,7 +1,7 @@
 """C01 — GJK distance: feasible, consistent, optimal (structural clauses)."""
 from . import scopes
 from ..core.report import DOMAIN_D
-from ..rules import mink, simplex, loops, buffers, clip, runmin
+from ..rules import mink, simplex, loops, buffers, clip, runmin, unpack
 
 J = "distance3d.gjk._gjk_jolt"
 
@@ -28,3 +28,4 @@ def run(idx, rep, tier):
     loops.r_loop(idx, rep, [J], floor=4)
     clip.r_clipguard(idx, rep)
     runmin.r_runmin(idx, rep, [J], floor=2)
+    unpack.r_unpack(idx, rep, floor=15)
